@@ -104,6 +104,29 @@ static void run_case_t(const json& c) {
         return buf.get<osmium::Relation>(0);
     };
 
+    // "big" cases: every member object is padded with tags to exactly a quarter of the stash's initial buffer minus
+    // 1 KiB, so that after 4 (and again after 8) stored members less than 10 KiB are free and ItemStash's automatic
+    // garbage collection (threshold lowered by OSMIUM_VERIF_STASH_GC_MIN) runs inside add_item() in the middle of
+    // a scenario - the place where offsets/handles can go stale.
+    const bool big = c.value("big", false);
+    const std::size_t target = 1024UL * 1024UL / 4 - 1024;
+    auto pad_tags = [&](osmium::builder::TagListBuilder& tl, std::size_t base_size) {
+        if (!big) return;
+        // size so far: base_size (object incl. the first tag, unpadded tag list).  Fill with 1000-byte values.
+        std::size_t have = base_size;
+        int n = 0;
+        const std::string v1000(1000, 'x');
+        while (have + 1100 < target) {
+            const std::string key = "p" + std::to_string(n++);
+            tl.add_tag(key, v1000);
+            have += key.size() + 1 + v1000.size() + 1;
+        }
+        const std::string key = "q";
+        const std::size_t rest = target - have;          // bytes still missing (incl. key, two NULs)
+        const std::size_t vlen = rest > key.size() + 2 ? rest - key.size() - 2 : 0;
+        tl.add_tag(key, std::string(vlen > 8 ? vlen - 8 : vlen, 'y'));   // stay a little below; padding to 8 bytes rounds up
+    };
+
     int k = 0;
     for (const auto& st : c["steps"]) {
         vh::step_marker(k);
@@ -132,6 +155,7 @@ static void run_case_t(const json& c) {
                     nb.set_id(id);
                     osmium::builder::TagListBuilder tl{nb};
                     tl.add_tag("k", "n" + std::to_string(id));
+                    pad_tags(tl, buf.written());
                 }
                 buf.commit();
                 mgr.handle_node(buf.get<osmium::Node>(0));
@@ -142,6 +166,7 @@ static void run_case_t(const json& c) {
                     wb.set_id(id);
                     osmium::builder::TagListBuilder tl{wb};
                     tl.add_tag("k", "w" + std::to_string(id));
+                    pad_tags(tl, buf.written());
                 }
                 buf.commit();
                 mgr.handle_way(buf.get<osmium::Way>(0));
